@@ -40,14 +40,27 @@ Theorem c12_bad_root_none : forall n N k, n <= k ->
 Proof. exact bad_root_none. Qed.
 Print Assumptions c12_bad_root_none.
 
-(* big generator: whenever it returns, it returns exactly [nodes] nodes.
-   (Partial: that it always returns, that all levels but the last are full and
-   that nodes = roster size uses every member once are checked on every
-   observation by the verified checker of Corr/C12.v, not proved here.) *)
-Theorem c12_big_count_partial : forall hosts N nodes l, 1 <= N -> 1 <= nodes ->
+(* big generator: whenever it returns, it returns exactly [nodes] nodes ... *)
+Theorem c12_big_count : forall hosts N nodes l, 1 <= N -> 1 <= nodes ->
   gen_big hosts N nodes = GTree l -> length l = nodes.
 Proof. exact gen_big_count. Qed.
-Print Assumptions c12_big_count_partial.
+Print Assumptions c12_big_count.
+
+(* ... and its levels are filled breadth-first: with [sizes] the level sizes (root level
+   first), they sum to [nodes], the first is 1, every level but the deepest is N times the
+   level above it and the deepest holds between 1 and N times the level above it.
+   (Partial on the big generator: that it never crashes / always returns, and that
+   nodes = roster size uses every member exactly once, are checked on every observation by
+   the checker of Corr/C12.v, not proved.) *)
+Theorem c12_big_levels : forall hosts N nodes sizes, 1 <= N -> 1 <= nodes ->
+  gen_big_sizes hosts N nodes = Some sizes ->
+  list_sum sizes = nodes /\ rshape N (rev sizes).
+Proof. exact gen_big_levels. Qed.
+Print Assumptions c12_big_levels.
+
+Example c12_big_sizes_example : gen_big_sizes [0; 1; 2] 2 12 = Some [1; 2; 4; 5].
+Proof. exact big_sizes_example. Qed.
+Print Assumptions c12_big_sizes_example.
 
 (* node ids are a function [idf] of the member placed on the node: if every
    member occupies at most one node, ids are pairwise distinct or [idf] collides *)
